@@ -1,4 +1,151 @@
+import AffVerif.Proofs.PruneSound
 import AffVerif.Model.Regions
-/-! # C09 (theorems added below as they are proved) -/
+/-!
+# C09 — reported regions agree with evaluation
+
+`regionsT` is the reference for what `polyhedra()` reports (the correspondence check compares the machine and the
+implementation against it under every skip schedule): every node with the closed half-spaces of its path.
+`routeT t x` lists the nodes the evaluation of `x` passes through, with the same path bookkeeping.
+Binary trees whose decisions are well-formed one-row predicates (`ElimOK`-like hypothesis `RouteOK`).
+Proved: an input satisfies the reported conditions of every node on its route; a point strictly inside the reported
+region of a child is routed to that child.  Open: the machine refinement (`PolyhedraGen` = `regionsT` under skips),
+disjointness and cover as theorems (decided exactly per generated tree by the judge).
+-/
+set_option linter.unusedSectionVars false
+set_option linter.unusedVariables false
 namespace AV
+variable {α : Type} [Field α] [LinearOrder α] [IsStrictOrderedRing α]
+
+mutual
+/-- nodes visited by the evaluation of `x`, each with the half-spaces of its path -/
+def PT.routeT : PT α → List α → List (Aff α) → List (Nat × List (Aff α))
+  | .node i c ks, x, path =>
+    (i, path) :: (if ks.allNone then [] else PKids.routeAt ks c.aff 0 (c.aff.label x) x path)
+def PKids.routeAt : PKids α → Aff α → Nat → Nat → List α → List (Aff α) → List (Nat × List (Aff α))
+  | .nil, _, _, _, _, _ => []
+  | .cons none _, _, _, 0, _, _ => []
+  | .cons (some t) _, a, l, 0, x, path => PT.routeT t x (path ++ [halfspace a l])
+  | .cons _ r, a, l, n+1, x, path => PKids.routeAt r a (l+1) n x path
+end
+
+mutual
+def PT.RouteOK : PT α → Prop
+  | .node _ c ks => (ks.allNone = false → c.aff.WF ∧ c.aff.outdim ≤ 1) ∧ PKids.RouteOK ks
+def PKids.RouteOK : PKids α → Prop
+  | .nil => True
+  | .cons none r => PKids.RouteOK r
+  | .cons (some t) r => PT.RouteOK t ∧ PKids.RouteOK r
+end
+
+mutual
+/-- an input satisfies the (closed) path conditions of every node it is routed through -/
+theorem PT.route_inPath (t : PT α) (x : List α) (path : List (Aff α)) (hx : InPath path x) (hok : PT.RouteOK t) :
+    ∀ e ∈ PT.routeT t x path, InPath e.2 x := by
+  match t with
+  | .node i c ks =>
+    unfold PT.RouteOK at hok
+    intro e he
+    simp only [PT.routeT, List.mem_cons] at he
+    rcases he with rfl | he
+    · exact hx
+    · split at he
+      · simp at he
+      · rename_i hall
+        have hd := hok.1 (by simpa using hall)
+        have hmem := mem_halfspace_label c.aff x hd.1 hd.2
+        exact PKids.routeAt_inPath ks c.aff 0 (c.aff.label x) (c.aff.label x) x path hx hok.2 (by omega) hmem e he
+theorem PKids.routeAt_inPath (ks : PKids α) (a : Aff α) (l n lab : Nat) (x : List α) (path : List (Aff α))
+    (hx : InPath path x) (hok : PKids.RouteOK ks) (hl : lab = l + n) (hmem : Poly.Mem (halfspace a lab) x) :
+    ∀ e ∈ PKids.routeAt ks a l n x path, InPath e.2 x := by
+  match ks, n with
+  | .nil, _ => intro e he; simp [PKids.routeAt] at he
+  | .cons none r, 0 => intro e he; simp [PKids.routeAt] at he
+  | .cons (some t) r, 0 =>
+    unfold PKids.RouteOK at hok
+    simp only [PKids.routeAt]
+    have : lab = l := by omega
+    subst this
+    exact PT.route_inPath t x _ (hx.append (InPath.single hmem)) hok.1
+  | .cons none r, n+1 =>
+    unfold PKids.RouteOK at hok
+    simp only [PKids.routeAt]
+    exact PKids.routeAt_inPath r a (l+1) n lab x path hx hok (by omega) hmem
+  | .cons (some t) r, n+1 =>
+    unfold PKids.RouteOK at hok
+    simp only [PKids.routeAt]
+    exact PKids.routeAt_inPath r a (l+1) n lab x path hx hok.2 (by omega) hmem
+end
+
+/-- x satisfies the reported path conditions of every node on its path (`[]` at the root) -/
+theorem C09_on_path_in (t : PT α) (x : List α) (hok : PT.RouteOK t) :
+    ∀ e ∈ PT.routeT t x [], InPath e.2 x :=
+  PT.route_inPath t x [] (by intro h hh; simp at hh) hok
+
+mutual
+/-- the route only mentions nodes with exactly the half-spaces `polyhedra()` reports for them -/
+theorem PT.route_sub_regions (t : PT α) (x : List α) (path : List (Aff α)) (d r : Nat) :
+    ∀ e ∈ PT.routeT t x path, e ∈ (regionsT t d r path).map (fun q => (q.1.idx, q.2)) := by
+  match t with
+  | .node i c ks =>
+    intro e he
+    simp only [PT.routeT, List.mem_cons] at he
+    simp only [regionsT, List.map_cons, List.mem_cons]
+    rcases he with rfl | he
+    · left; rfl
+    · right
+      split at he
+      · simp at he
+      · exact PKids.routeAt_sub_regions ks c.aff 0 _ x path (d+1) e he
+theorem PKids.routeAt_sub_regions (ks : PKids α) (a : Aff α) (l n : Nat) (x : List α) (path : List (Aff α)) (d : Nat) :
+    ∀ e ∈ PKids.routeAt ks a l n x path, e ∈ (regionsK ks a l d path).map (fun q => (q.1.idx, q.2)) := by
+  match ks, n with
+  | .nil, _ => intro e he; simp [PKids.routeAt] at he
+  | .cons none r, 0 => intro e he; simp [PKids.routeAt] at he
+  | .cons (some t) r, 0 =>
+    intro e he
+    simp only [PKids.routeAt] at he
+    simp only [regionsK, List.map_append, List.mem_append]
+    left
+    exact PT.route_sub_regions t x _ d r.count e he
+  | .cons none r, n+1 =>
+    intro e he
+    simp only [PKids.routeAt] at he
+    simp only [regionsK]
+    exact PKids.routeAt_sub_regions r a (l+1) n x path d e he
+  | .cons (some t) r, n+1 =>
+    intro e he
+    simp only [PKids.routeAt] at he
+    simp only [regionsK, List.map_append, List.mem_append]
+    right
+    exact PKids.routeAt_sub_regions r a (l+1) n x path d e he
+end
+
+/-- every node on the route of `x` is one of the reported nodes, with exactly the reported path conditions -/
+theorem C09_route_regions (t : PT α) (x : List α) :
+    ∀ e ∈ PT.routeT t x [], e ∈ (regionsT t 0 0 []).map (fun q => (q.1.idx, q.2)) :=
+  PT.route_sub_regions t x [] 0 0
+
+/-- a point strictly inside the half-space reported for the edge with label `l` takes that edge -/
+theorem C09_interior_routed (d : Aff α) (x : List α) (l : Nat) (hl : l = 0 ∨ l = 1) (hwf : d.WF) (hrows : d.outdim = 1)
+    (hstrict : ∀ rb ∈ (halfspace d l).rows, dot rb.1 x < rb.2) : d.label x = l := by
+  obtain ⟨hw1, hw2⟩ := hwf
+  unfold Aff.outdim at hrows
+  match hm : d.mat, hb : d.bias with
+  | [r], [b] =>
+    unfold Aff.label
+    rw [hm, hb]
+    simp only [labelBits]
+    rcases hl with rfl | rfl
+    · have := hstrict (vneg r, -b) (by simp [halfspace, Aff.rows, hm, hb, matNeg, vneg])
+      simp only [dot_vneg_left] at this
+      have hc : ¬ (dot r x - b ≤ 0) := by intro h; linarith
+      simp [hc]
+    · have := hstrict (r, b) (by simp [halfspace, Aff.rows, hm, hb])
+      have hc : dot r x - b ≤ 0 := by linarith
+      simp [hc]
+  | [], _ => simp [hm] at hrows
+  | [r], [] => simp [hm, hb] at hw2
+  | [r], _ :: _ :: _ => simp [hm, hb] at hw2
+  | _ :: _ :: _, _ => simp [hm] at hrows
+
 end AV
